@@ -12,6 +12,8 @@ Rot(n) == [i \in 1..n |-> ((i + 6) % n) + 1]
 ListsB == UNION {{Asc(n), Desc(n), Rot(n)} : n \in {15, 16, 17}}
 ListsQ == Lists4 \cup ListsB
 Thr == {0, 1, 2, 3, 4, 5, 15, 16, 17, 18}
+AgainL == {<<2, 1>>, <<1, 3, 4>>, Asc(16)}
+AgainT == {1, 2}
 
 AlphaQ == {Num(0), Num(1), Num(2), Num(3), NumTok(2, "b1"), CanonKey(1), CanonKey(2), KeyTok(1, "bad", "direct"),
            JunkTok, OpTok("CHECKSIG"), OpTok("CHECKMULTISIG"), OpTok("NOP")}
